@@ -31,6 +31,8 @@ def main():
     print("| seed | summary (seeder's words, shortened) | first evaluation | now |")
     print("|------|--------------------------------------|------------------|-----|")
     for d in sorted(glob.glob(os.path.join(VERIF, "seeded", "*-%s[ab]" % suffix))):
+        if not os.path.exists(os.path.join(d, "meta.json")):
+            continue
         m = json.load(open(os.path.join(d, "meta.json")))
         s = (m.get("summary") or "").replace("\n", " ").replace("|", "/")[:150]
         now = ", ".join("`%s`" % k for k in keys(m.get("check_lines"))[:3]) or "**missed**"
